@@ -89,7 +89,7 @@ CHECKS = {
 SIG_TEXT = {
     "C01": "Oracle: an executable JSEP/W3C signaling state machine with the four description slots, evaluated after every SetLocal/SetRemoteDescription of seeded histories (<=14 operations; offer/pranswer/answer/rollback; own, stale, empty and garbage descriptions; reordered, duplicated, dropped signaling; raw remote descriptions of any type; valid foreign offers and answers). A call may only succeed along an edge and must land on its target; getters must report pending-else-current; stable implies no pending; completing an exchange must move exactly that offer and answer to current.",
     "C02": "As C01 with rollbacks on either side, with and without SDP text, after every kind of state. Oracle: rollback succeeds from the side-matching non-stable states, lands in stable with no pending and the last stable current descriptions, and is rejected from stable.",
-    "C03": "As C01 plus signaling tampering (remove mid / ice-ufrag / ice-pwd / fingerprint, corrupt a line, unknown fingerprint hash, unusable codecs, duplicate mids) and wrong-type, stale, empty and garbage descriptions. Oracle: when a Set*Description call returns an error, signaling state, the four descriptions and the number of signaling-state events are what they were before the call.",
+    "C03": "As C01 plus signaling tampering (remove mid / ice-ufrag / ice-pwd / fingerprint, corrupt a line, unknown fingerprint hash, unusable codecs, duplicate mids) and wrong-type, stale, empty and garbage descriptions. Oracle: when a Set*Description call returns an error, signaling state, the four descriptions and the number of signaling-state events are what they were before the call. A second batch (harness C03C) runs 2-4 overlapping Set*Description calls, some never acceptable, under the seeded cooperative scheduler (scheduling points at every lock/atomic site of peerconnection.go and signalingstate.go): at most as many state-change events as accepted calls, and nothing changes when every call is rejected.",
     "C04": "Histories of AddTrack, RemoveTrack, AddTransceiverFromKind/FromTrack, Stop, ReplaceTrack, CreateDataChannel, complete and partial exchanges and Close on a connecting pair (real simulated network so queued work drains, each operation drained with the queue's own Done()). Oracle: OnNegotiationNeeded only in stable and not closed; at most one invocation between two transitions into stable; at least one when an uncovered change exists at a stable, drained point.",
     "C06": "Every description CreateOffer/CreateAnswer returns during histories of transceiver/track/data-channel changes and renegotiations against the pion peer and foreign offers (numeric, non-numeric, sparse, one-based mids), under each SDPSemantics, BundlePolicy, AlwaysNegotiateDataChannels and fingerprint level, is read with an independent line-level SDP reader: unique mids on every section, BUNDLE = mids of accepted sections, credentials/direction/setup/fingerprint on accepted sections.",
     "C07": "Every created answer is compared with the remote offer the connection holds (foreign offers mixing audio/video/application/text/message, with and without direction attributes, supported and unsupported codecs; consistent foreign re-offers; pion re-offers): same section count, order, kind and mid.",
